@@ -109,6 +109,8 @@ def patch_text(isa, lines, fmt="elf"):
                 str(x) for x in bytes.fromhex(ln["hex"])))
         elif "raw" in ln:
             out.append(ln["raw"])
+        elif ln.get("d") == "balign":
+            out.append(f".balign {ln['n']}")
         else:
             out.append(vocab.asm_text(isa, ln["k"], ln.get("t"),
                                       ln.get("imm")))
